@@ -29,7 +29,11 @@ import (
 
 const (
 	vpC25Years        = 10000 // mintBatchSize refuses batch/365 > 10000
-	vpC25DistMaxBatch = 36500 // distributions are generated for batches up to schedule year 100
+	// A node share is floor(base*f_i/sum f) with f_i >= avg/7, sum f <= 2*avg*n and base =
+	// floor(amount/10)*5, so with n <= 50 every share is at least one unit whenever the
+	// amount is at least 1410 units. Distributions are generated for batches whose
+	// single-batch size is at least this many units (schedule years 0..152).
+	vpC25DistMinUnits = 1500
 )
 
 // ---- independent reference of the schedule (units of 1e-8) ----
@@ -38,6 +42,7 @@ type vpC25Ref struct {
 	day        []*big.Int // per-batch size in schedule year y
 	prefixYear []*big.Int // sum of all batches of the years before y
 	firstZero  int        // first year whose per-batch size is zero
+	distMax    uint64     // last batch whose size is at least vpC25DistMinUnits
 	lastSub    int        // last year y such that all earlier yearly amounts are positive
 }
 
@@ -59,6 +64,9 @@ func vpC25Reference() *vpC25Ref {
 			r.day = append(r.day, day)
 			r.prefixYear = append(r.prefixYear, new(big.Int).Set(sum))
 			sum.Add(sum, new(big.Int).Mul(day, days))
+			if day.Cmp(big.NewInt(vpC25DistMinUnits)) >= 0 {
+				r.distMax = uint64(y)*365 + 364
+			}
 			if day.Sign() == 0 && r.firstZero < 0 {
 				r.firstZero = y
 			}
@@ -435,10 +443,14 @@ func vpC25Generate(t *rapid.T, maxNodes int) *vpC25Case {
 	copy(net[:], rapid.SliceOfN(rapid.Byte(), 32, 32).Draw(t, "network"))
 	perm := rapid.Permutation([]int{0, 1, 2, 3, 4, 5, 6, 7, 8, 9, 10, 11, 12, 13, 14, 15, 16, 17, 18, 19, 20, 21, 22, 23, 24, 25, 26, 27, 28, 29, 30, 31, 32, 33, 34, 35, 36, 37, 38, 39, 40, 41, 42, 43, 44, 45, 46, 47, 48, 49, 50, 51, 52, 53, 54, 55, 56, 57, 58, 59, 60, 61, 62, 63}).Draw(t, "address_order")
 
-	batch := uint64(rapid.IntRange(KernelNetworkLegacyEnding+1, vpC25DistMaxBatch).Draw(t, "batch"))
-	if rapid.IntRange(0, 2).Draw(t, "batch_edge") == 0 {
-		y := uint64(rapid.IntRange(5, vpC25DistMaxBatch/365-1).Draw(t, "batch_year"))
+	distMax := int(vpC25Reference().distMax)
+	batch := uint64(rapid.IntRange(KernelNetworkLegacyEnding+1, distMax).Draw(t, "batch"))
+	switch rapid.IntRange(0, 3).Draw(t, "batch_kind") {
+	case 0:
+		y := uint64(rapid.IntRange(5, distMax/365).Draw(t, "batch_year"))
 		batch = y*365 + uint64(rapid.IntRange(0, 2).Draw(t, "batch_edge_off")) - 1
+	case 1:
+		batch = uint64(rapid.IntRange(KernelNetworkLegacyEnding+1, 4000).Draw(t, "batch_early"))
 	}
 	hour := uint64(rapid.IntRange(7, 9).Draw(t, "hour"))
 	ts := epoch + batch*OneDay + hour*uint64(time.Hour) + uint64(rapid.Int64Range(0, int64(time.Hour)-1).Draw(t, "minute"))
@@ -507,6 +519,8 @@ func vpC25Generate(t *rapid.T, maxNodes int) *vpC25Case {
 		}
 	case 1:
 		cs.old = batch - 1
+	case 2:
+		cs.old = batch - uint64(rapid.IntRange(2, 30).Draw(t, "gap_short"))
 	default:
 		cs.old = batch - uint64(rapid.IntRange(1, 800).Draw(t, "gap"))
 	}
@@ -635,13 +649,15 @@ func (cs *vpC25Case) classify() {
 }
 
 func TestVP_C25_distribution(t *testing.T) {
-	c := kit.New(t, "C25", "rapid: 7..50 accepted nodes (genesis and later accepted, plus removed ones), batch 1707..36500 at mint hours 7..9 (year edges biased), last mint 1..800 batches back or none, works (lead,sign) clustered around a center with multipliers on both sides of avg, 7*avg and avg/7, zero-work nodes up to n-threshold, extremes (2^63 lead, 2^64-1 sign, 1), aggregation state ready or not; full buildUniversalMintTransaction against a fake store, then Validate; non-trivial = built distribution with >=3 distinct work values incl. one clamped high and one clamped low; distinct by (batch, old, works)")
+	c := kit.New(t, "C25", "rapid: 7..50 accepted nodes (genesis and later accepted, plus removed ones), batch 1707..~year 152 (single-batch size >= 1500 units) at mint hours 7..9 (year edges biased), last mint 1..800 batches back or none, works (lead,sign) clustered around a center with multipliers on both sides of avg, 7*avg and avg/7, zero-work nodes up to n-threshold, extremes (2^63 lead, 2^64-1 sign, 1), aggregation state ready or not; full buildUniversalMintTransaction against a fake store, then Validate; non-trivial = built distribution with >=3 distinct work values incl. one clamped high and one clamped low; distinct by (batch, old, works)")
 	c.Require("built", "not-built", "nontrivial", "clamped-high", "clamped-low", "zero-work-node", "multi-batch", "single-batch", "equal-works-pair", "removed-node-present", "nodes>=30", "validate-only-same-batch")
-	c.Assume("batches up to schedule year 100: the smallest node share is then at least 1 unit for 50 nodes; smaller amounts are known finding C25-K2")
+	c.Assume(fmt.Sprintf("batches up to %d (single-batch size >= %d units): the smallest node share is then at least 1 unit for 50 nodes; smaller amounts are known finding C25-K2", vpC25Reference().distMax, vpC25DistMinUnits))
+	c.Set("excluded_known_batches_from", vpC25Reference().distMax+1)
 	kit.SetChecks(kit.N(1200, 200000))
 	maxNodes := 50
 	custodian := vpC25Addresses()[128]
 	ref := vpC25Reference()
+	outer := t
 	rapid.Check(t, func(t *rapid.T) {
 		cs := vpC25Generate(t, maxNodes)
 		cs.classify()
@@ -671,7 +687,7 @@ func TestVP_C25_distribution(t *testing.T) {
 		if tx == nil {
 			if cs.ready {
 				// not demanded by the property, but the generator relies on it: a ready state must produce a mint
-				kit.Inconclusive(t, "generator: state built as ready produced no mint (batch %d)", cs.batch)
+				kit.Inconclusive(outer, "generator: state built as ready produced no mint (batch %d)", cs.batch)
 			}
 			c.Case(fp, false, "not-built")
 			return
@@ -785,6 +801,90 @@ func TestVP_C25_distribution(t *testing.T) {
 			c.Sample(map[string]any{"batch": cs.batch, "old": cs.old, "nodes": n, "amount_units": amount.String(), "node_share_units": nodes.String(), "custodian_units": outs[n].String(), "light_units": outs[n+1].String(), "clamped_high": cs.clampHi, "clamped_low": cs.clampLo, "zero_work": cs.zeroWork})
 		}
 	})
+}
+
+// vpC25Fixed builds a ready mint state without any random draw: n genesis nodes with
+// the given works, one batch after the last recorded mint, at 08:00 of the batch day.
+func vpC25Fixed(n int, batch uint64, works [][2]uint64) *vpC25Case {
+	addrs := vpC25Addresses()
+	epoch := uint64(1551312000) * uint64(time.Second)
+	net := crypto.Blake3Hash([]byte("vpC25-fixed-network"))
+	var all []*CNode
+	gmap := map[crypto.Hash]bool{}
+	for i := 0; i < n; i++ {
+		cn := &CNode{IdForNetwork: addrs[i].Hash().ForNetwork(net), Signer: addrs[i], Payee: addrs[64+i],
+			Transaction: crypto.Blake3Hash([]byte(fmt.Sprintf("vpC25-accept-%d", i))), Timestamp: epoch, State: common.NodeStateAccepted}
+		gmap[cn.IdForNetwork] = true
+		all = append(all, cn)
+	}
+	sort.Slice(all, func(i, j int) bool { return all[i].IdForNetwork.String() < all[j].IdForNetwork.String() })
+	store := &vpC25Store{}
+	node := &Node{Epoch: epoch, networkId: net, persistStore: store, genesisNodesMap: gmap, Signer: addrs[0]}
+	node.IdForNetwork = node.Signer.Hash().ForNetwork(net)
+	node.allNodesSortedWithState = all
+	node.nodeStateSequences = node.buildNodeStateSequences(all, false)
+	node.acceptedNodeStateSequences = node.buildNodeStateSequences(all, true)
+	ts := epoch + batch*OneDay + 8*uint64(time.Hour)
+	cs := &vpC25Case{node: node, store: store, ts: ts, batch: batch, old: batch - 1, works: map[crypto.Hash][2]uint64{}, ready: true}
+	store.dist = &common.MintDistribution{MintData: common.MintData{Group: "UNIVERSAL", Batch: batch - 1, Amount: common.NewInteger(1)}, Transaction: crypto.Blake3Hash([]byte("vpC25-last-mint"))}
+	lt := common.NewTransactionV5(common.XINAssetId)
+	lt.AddInput(crypto.Blake3Hash([]byte("vpC25-last-op-input")), 0)
+	store.lastTx = lt.AsVersioned()
+	store.last = &common.Snapshot{Version: common.SnapshotVersionCommonEncoding, NodeId: all[0].IdForNetwork, RoundNumber: 3,
+		References: &common.RoundLink{}, Timestamp: ts - uint64(time.Hour), Transactions: []crypto.Hash{store.lastTx.PayloadHash()}}
+	store.last.Hash = store.last.PayloadHash()
+	day := ts / OneDay
+	store.today = uint32(day)
+	store.worksToday, store.worksPrev = map[crypto.Hash][2]uint64{}, map[crypto.Hash][2]uint64{}
+	store.checkpoints, store.spaces = map[crypto.Hash]*common.RoundSpace{}, map[crypto.Hash][]*common.RoundSpace{}
+	for i, cn := range node.NodesListWithoutState(ts, true) {
+		cs.accepted = append(cs.accepted, cn.IdForNetwork)
+		store.worksToday[cn.IdForNetwork] = [2]uint64{1, 1}
+		store.checkpoints[cn.IdForNetwork] = &common.RoundSpace{NodeId: cn.IdForNetwork, Batch: day - epoch/OneDay, Round: 9}
+		store.worksPrev[cn.IdForNetwork] = works[i%len(works)]
+		cs.works[cn.IdForNetwork] = works[i%len(works)]
+	}
+	return cs
+}
+
+// C25-K2: when the batch amount is so small that a node share (or the whole kernel
+// share) rounds down to zero, buildUniversalMintTransaction panics in Integer.Add(0)
+// instead of producing positive outputs or declining to mint. The witness is the
+// first batch of schedule year 200 (batch size 9 units) with 7 equally working nodes.
+func vpC25K2Witness() (batch uint64, amountUnits *big.Int, pnc string, zeroOutput bool) {
+	batch = 200 * 365
+	amountUnits = vpC25Reference().size(batch)
+	cs := vpC25Fixed(7, batch, [][2]uint64{{10, 100}})
+	custodian := vpC25Addresses()[128]
+	var tx *common.VersionedTransaction
+	pnc = vpC25Catch(func() {
+		tx = cs.node.buildUniversalMintTransaction(&common.CustodianUpdateRequest{Custodian: &custodian}, cs.ts, false)
+	})
+	if tx != nil {
+		for _, o := range tx.Outputs {
+			if o.Amount.Sign() <= 0 {
+				zeroOutput = true
+			}
+		}
+	}
+	return
+}
+
+func TestVP_C25_known_2(t *testing.T) {
+	if kit.Replaying() {
+		return
+	}
+	// sanity of the fixed builder on a batch inside the domain: it must mint
+	cs := vpC25Fixed(7, 3000, [][2]uint64{{10, 100}})
+	custodian := vpC25Addresses()[128]
+	if tx := cs.node.buildUniversalMintTransaction(&common.CustodianUpdateRequest{Custodian: &custodian}, cs.ts, false); tx == nil {
+		kit.Inconclusive(t, "fixed mint state does not mint at batch 3000")
+		return
+	}
+	batch, amount, pnc, zero := vpC25K2Witness()
+	if pnc != "" || zero {
+		kit.ReportKnown(t, "C25", "C25-K2", fmt.Sprintf("dust distribution: buildUniversalMintTransaction for batch %d (amount %s units, 7 nodes) -> %q zero-output=%v", batch, amount, pnc, zero))
+	}
 }
 
 // vpC25Print prints units as a decimal with eight places.
